@@ -240,3 +240,9 @@ Theorem C17_max_principle_uniform_checked_partial : forall fs cot free bnd U V U
   forall i, In i free -> in_hull (map p bnd) (p i).
 Proof. exact max_principle_uniform_checked. Qed.
 Print Assumptions C17_max_principle_uniform_checked_partial.
+
+(* constructor mode selection (generated): CUSTOM iff custom_boundary was written with a non-None value *)
+Theorem C17_constructor_mode : forall present given_none : bool,
+  ctor_mode_custom present given_none = true <-> (present = true /\ given_none = false).
+Proof. exact ctor_mode_spec. Qed.
+Print Assumptions C17_constructor_mode.
